@@ -35,3 +35,5 @@ func VerifVisitArgs(a *Args, f func(key, value []byte, noValue bool)) {
 		f(kv.key, kv.value, kv.noValue)
 	}
 }
+
+func VerifAppendHeaderLine(dst, key, value []byte) []byte { return appendHeaderLine(dst, key, value) }
